@@ -912,7 +912,16 @@ def rule_range_primary_gets_an_arm(repo: Repo, rep, rule: str = "R5.18") -> None
                 if p_ is not None and st in (getattr(p_, fld, None) or []):
                     blk = getattr(p_, fld)
             later = blk[blk.index(st) + 1:] if blk else []
-            if any(isinstance(x, ast.Call) and isinstance(x.func, ast.Attribute) and x.func.attr in ("_write_strategy_based_return", "_write_parsed_return") for y in later for x in ast.walk(y)):
+            def _returns(x: ast.AST) -> bool:
+                """the strategy's return writer, or - when it has been written out - the `return ...` / `yield ...` lines it emits"""
+                if isinstance(x, ast.Call) and isinstance(x.func, ast.Attribute) and x.func.attr in ("_write_strategy_based_return", "_write_parsed_return"):
+                    return True
+                if isinstance(x, ast.Call) and isinstance(x.func, ast.Attribute) and x.func.attr == "write_line" and x.args:
+                    t_ = template_of(x.args[0], fn.node)
+                    return t_ is not None and t_.text.lstrip().startswith(("return ", "yield "))
+                return False
+
+            if any(_returns(x) for y in later for x in ast.walk(y)):
                 good = c
         if good is not None:
             r.ok(rule, sub, "`case _ if 200 <= response.status_code < 300:` followed by the strategy's return / streaming loop", fn.loc(good))
